@@ -7,7 +7,8 @@
 
   Go's `int` results -1 / 0 / +1 are modelled as `Ordering` (`lt / eq / gt`);
   inside the segment loop `eq` stands for "continue with the next segment".
-  Strings are ASCII, as `List Char`.  Core Lean only.
+  Strings are byte strings (`List Char`, every `Char` below 256): the segment
+  pattern's classes are ASCII, so every byte ≥ 0x80 is a separator.  Core Lean only.
 -/
 import ClairModel.Lib.Order
 import ClairModel.Model.VerCommon
@@ -87,13 +88,13 @@ structure Version where
   release : Str
   deriving DecidableEq, Repr
 
-/-- `NewVersion`: epoch before the first `:` (left-trimmed, `Atoi`, any error
-    gives 0), then version and release around the first `-`. -/
+/-- `NewVersion`: epoch before the first `:` (left-trimmed of Unicode white
+    space, `Atoi`, any error gives 0), then version and release around the first `-`. -/
 def newVersion (ver : Str) : Version :=
   let (epoch, rest) : Int × Str :=
     match cut ':' ver with
     | none => (0, ver)
-    | some (e, r) => ((atoi (trimLeft isSpace e)).getD 0, r)
+    | some (e, r) => ((atoi (trimLeftSpace e)).getD 0, r)
   match cut '-' rest with
   | some (v, r) => { epoch := epoch, version := v, release := r }
   | none => { epoch := epoch, version := rest, release := [] }
